@@ -866,7 +866,7 @@ func startWatchdog() {
 	wdOnce.Do(func() {
 		go func() {
 			last := int64(-1)
-			stuck := 0
+			stuck, confirm := 0, 0
 			for {
 				time.Sleep(100 * time.Millisecond)
 				wd.mu.Lock()
@@ -875,7 +875,7 @@ func startWatchdog() {
 				p := wdProgress.Load()
 				if !active || p != last {
 					last = p
-					stuck = 0
+					stuck, confirm = 0, 0
 					continue
 				}
 				stuck++
@@ -893,11 +893,19 @@ func startWatchdog() {
 				dump := string(buf[:n])
 				lockWaiters := strings.Count(dump, "sync.(*Mutex).Lock") + strings.Count(dump, "sync.(*RWMutex).Lock") +
 					strings.Count(dump, "sync.(*RWMutex).RLock") + strings.Count(dump, "[semacquire") + strings.Count(dump, "[sync.")
-				busy := strings.Count(dump, "[running") + strings.Count(dump, "[runnable") - 1
+				// a goroutine inside a system call (writing a record or a log line to a slow pipe on a
+				// loaded machine) is busy too; and the picture must be the same in 5 samples in a row
+				// (0.5 s): a real deadlock stays, a transient picture of a starved process does not.
+				busy := strings.Count(dump, "[running") + strings.Count(dump, "[runnable") - 1 +
+					strings.Count(dump, "[syscall") + strings.Count(dump, "[IO wait")
 				if os.Getenv("VERIF_WD_DEBUG") != "" {
 					fmt.Fprintf(os.Stderr, "watchdog: stuck=%d lockWaiters=%d busy=%d\n", stuck, lockWaiters, busy)
 				}
 				if (lockWaiters == 0 || busy > 0) && stuck < 1200 {
+					confirm = 0
+					continue
+				}
+				if confirm++; confirm < 5 && stuck < 1200 {
 					continue
 				}
 				wd.mu.Lock()
